@@ -31,6 +31,12 @@ T_SOFT, T_HARD = 9, 5         # timed scripts: intervals in units (delays are ev
 FIXED = dict(kind="fixed", limit=4, spike=1, total=0)
 PERCENT = dict(kind="percent", limit=3, spike=1, total=200 * MIB)
 DEFSPIKE = dict(kind="fixed", limit=5, spike=0, total=0)      # spike unspecified: documented default 20%
+# limits of 4 GiB and more ("every limit/spike configuration accepted by validation"): the model's memory unit is 1 KiB
+# (TLC integers have 32 bits), `total` is in units, the driver multiplies readings and total by `unit`
+BIG = [dict(kind="fixed", limit=8192, spike=2048, total=0, unit=1024), dict(kind="fixed", limit=6000, spike=500, total=0, unit=1024),
+       dict(kind="fixed", limit=4096, spike=1, total=0, unit=1024), dict(kind="fixed", limit=5722, spike=1907, total=0, unit=1024),
+       dict(kind="percent", limit=75, spike=25, total=64 * 1024, unit=1048576),               # 64 GiB, unit 1 MiB
+       dict(kind="fixed", limit=1048576, spike=4096, total=0, unit=1048576)]               # 1 TiB, unit 1 MiB
 
 
 def tla_set(xs):
@@ -42,11 +48,12 @@ def base_consts(cfg, soft, hard, maxt, users):
   CfgLimit = %d
   CfgSpike = %d
   TotalMem = %d
+  UnitsPerMiB = %d
   SoftInt = %d
   HardInt = %d
   MaxT = %d
   Users = %s
-""" % (cfg["kind"], cfg["limit"], cfg["spike"], cfg["total"], soft, hard, maxt, tla_set(users))
+""" % (cfg["kind"], cfg["limit"], cfg["spike"], cfg["total"], MIB // cfg.get("unit", 1), soft, hard, maxt, tla_set(users))
 
 
 def mc_cfg(cfg, soft, hard, maxt, users, delays, results, rset):
@@ -389,6 +396,8 @@ def run(c):
                 (PERCENT, 0, 0, "classes", 4, 7 ** 4, False),
                 (PERCENT, INF_UNITS, 0, "full", 3, None, False),
                 (DEFSPIKE, 0, 0, "classes", 3, 7 ** 3, True)]
+        plan += [(b, 0, 0, "small", 3, 13 ** 3, False) for b in BIG[:4]] + [(BIG[4], INF_UNITS, 0, "small", 3, 7 ** 3, False),
+                                                                             (BIG[5], 0, 0, "classes", 3, 7 ** 3, False)]
         procs = 4
     else:
         plan = [(FIXED, 0, 0, "small", 5, 13 ** 5, False),
@@ -400,9 +409,10 @@ def run(c):
                 (PERCENT, INF_UNITS, 0, "full", 4, None, False),
                 (DEFSPIKE, 0, 0, "small", 4, 13 ** 4, True),
                 (DEFSPIKE, INF_UNITS, 0, "full", 3, None, True)]
+        plan += [(b, 0, 0, "small", 4, 13 ** 4, False) for b in BIG] + [(b, INF_UNITS, 0, "full", 3, None, False) for b in BIG]
         procs = 8
     for cfg, soft, hard, rset, n, expect, drift_only in plan:
-        name = "A_%s_%s_%s_%s%d" % (cfg["kind"] + str(cfg["spike"]), "inf" if soft else "0", "inf" if hard else "0", rset, n)
+        name = "A_%s_%s_%s_%s%d" % (cfg["kind"] + str(cfg["limit"]) + "_" + str(cfg["spike"]), "inf" if soft else "0", "inf" if hard else "0", rset, n)
         behs = generate(c, "gen" + name, gen_cfg(cfg, soft, hard, 5, ["logs"], [1], ["ok"], rset, "checks", n), expect)
         dcfg = drv_cfg(cfg, INF_NS if soft else 0, INF_NS if hard else 0)
         res = run_driver(c, binp, "checks", dcfg, behs, name, procs=procs, timeout=1500)
